@@ -7,6 +7,7 @@
 import FP.Model.Syntax
 import FP.Model.Printer
 import FP.Lemmas.Syntax
+import FP.Lemmas.SyntaxFull
 namespace FP.Props.C11
 open FP FP.Model.Syntax FP.Gen.Grammar FP.Lemmas.Syntax
 
@@ -70,5 +71,50 @@ theorem trailing_rejected (ts : List Tok) (e : Ex) (h : parseProg ts = some e) :
   split at h
   · rename_i e' heq; cases h; exact ⟨_, heq⟩
   · cases h
+
+/-- FULL PARENTHESISATION: every tree — operators of all levels, polarity, type operators,
+    invocations, indexers and function calls with arguments, nested anywhere — rendered with every
+    operator application in its own parentheses parses back to itself, consuming the whole input -/
+theorem full_rendering_roundtrip (t : Ex) (h : WfE t) : parseProg (printFull t) = some t :=
+  parseProg_of_termR table_ok ((full_all table_ok t).1 h) (by have := (fuelFull_le t).1 h; omega)
+
+/-- every tree of the full-rendering theorem is a tree of the minimal-rendering theorem: function
+    calls with arguments count as atoms / invocations because their argument lists are read back -/
+theorem minimal_rendering_roundtrip_all (t : Ex) (h : WfE t) : parseProg (printAt 0 t) = some t :=
+  minimal_rendering_roundtrip t ((core_of_wf table_ok t).1 h)
+
+/-- the two renderings of a tree parse to the same tree: one compiles iff the other does, and they
+    denote the same expression -/
+theorem renderings_agree (t : Ex) (h : WfE t) : parseProg (printFull t) = parseProg (printAt 0 t) := by
+  rw [full_rendering_roundtrip t h, minimal_rendering_roundtrip_all t h]
+
+/-- REDUNDANT PARENTHESES are transparent: around a whole minimal rendering … -/
+theorem redundant_parentheses (t : Ex) (h : Core t) : parseProg (.kw "(" :: printAt 0 t ++ [.kw ")"]) = some t := by
+  apply parseProg_of_termR table_ok (exprR_of_core table_ok t h).wrap
+  have := depth_le_length t h 0
+  simp only [List.length_cons, List.length_append, List.length_nil]; omega
+
+/-- … and around any sub-term, any number of times: if X is read as the term t, so is ( X ) -/
+theorem parentheses_transparent (t : Ex) (X : List Tok) (n : Nat) (h : TermR t X n) :
+    TermR t (.kw "(" :: X ++ [.kw ")"]) (n + 1) := (h.expr table_ok).wrap
+
+/-- the hypotheses are satisfiable: a call with two arguments inside an operator application -/
+example : WfE (.bin "+" (.dot (.ext "v") (.call "where" (.argCons (.bin "=" (.member "a") (.lit (.num "1"))) (.argCons (.lit (.kw "true")) .argNil))))
+    (.pol "-" (.lit (.num "2")))) := by
+  have h1 : levelIdx "+" false < nLevels := by decide +kernel
+  have h2 : levelIdx "=" false < nLevels := by decide +kernel
+  simp only [WfE, WfI, WfA]
+  exact ⟨h1, ⟨trivial, ⟨h2, trivial, .num _⟩, .tt, trivial⟩, Or.inr trivial, .num _⟩
+
+/-- SUFFIX OPERATORS (as ANTLR's precedence loop reads them): after `left is T` the loop goes on with
+    the tighter operators, which take `left is T` as their left operand; a looser operator on the
+    left is closed first.  Evaluated by the kernel on the model parser; the same sources are in the
+    correspondence stream against the real parser -/
+theorem type_operator_is_a_suffix :
+    parse "x is T * y" = some (.bin "*" (.typ "is" (.member "x") ["T"]) (.member "y")) ∧
+    parse "1 + x is T * 2" = some (.bin "*" (.typ "is" (.bin "+" (.lit (.num "1")) (.member "x")) ["T"]) (.lit (.num "2"))) ∧
+    parse "x as T[0]" = some (.idx (.typ "as" (.member "x") ["T"]) (.lit (.num "0"))) ∧
+    parse "a = x is T + 1" = some (.bin "=" (.member "a") (.bin "+" (.typ "is" (.member "x") ["T"]) (.lit (.num "1")))) := by
+  decide +kernel
 
 end FP.Props.C11
